@@ -10,9 +10,12 @@ import (
 	"verif/harness/hmain"
 	"verif/harness/hx"
 	"verif/harness/pipedrv"
+	"verif/harness/pooldrv"
 )
 
 func gen(c *hmain.Ctx) {
+	// the event pools alone (sub-models 10 / 11): lost wake-up windows, heartbeat, capacity
+	pooldrv.Gen(c)
 	// directed schedules first, one at a time (a panic of the real code takes the process down:
 	// the case in progress is then the one recorded by the runner)
 	for _, procs := range []int{1, 2, 4} {
@@ -39,5 +42,10 @@ func gen(c *hmain.Ctx) {
 func main() {
 	hmain.Run(&hmain.Prop{ID: "C04",
 		Rule: "pipeline cases as in C02 plus the family 'discard-before-hold' (an action in front of the holding one discards the event that follows a run, then silence) and directed schedules (heartbeat held before tryUnblock while the stream is unblocked and drained). Every case is non-trivial; distinct = distinct case text.",
-		Gen: gen, Exec: func(which int, cs hx.Sx) hx.Sx { return pipedrv.RunCase(cs) }})
+		Gen:  gen, Exec: func(which int, cs hx.Sx) hx.Sx {
+			if which == 10 || which == 11 {
+				return pooldrv.RunCase(cs)
+			}
+			return pipedrv.RunCase(cs)
+		}})
 }
